@@ -35,29 +35,58 @@ type obsAsync struct {
 	Succ    [][3]int64 `json:"succ"`
 	Errs    [][2]int64 `json:"errs"`
 	Reports []string   `json:"reports"`
-	NP      [][2]int64 `json:"np"`
+	NP      [][3]int64 `json:"np"`
+	Ctors   []int64    `json:"ctors"`
+	Checks  [][2]int64 `json:"checks"`
+	Final   [][2]int64 `json:"final"` // (Partition, Offset) of each message after Close, in arrival order
+	Hang    bool       `json:"hang,omitempty"`
 	Arrival []int64    `json:"arrival"` // message ids in arrival order
 }
 
-func runAsync(s ascript) (obsAsync, []msg) {
+func runAsync(s ascript) (o obsAsync, arrival []msg) {
+	if !watchdog(func() { o, arrival = runAsync1(s) }) {
+		return obsAsync{Hang: true}, s.Msgs
+	}
+	return
+}
+
+func runAsync1(s ascript) (obsAsync, []msg) {
 	rep := &reporter{}
-	var seen [][2]int64
-	var mu sync.Mutex
+	clog := newCheckLog()
+	plog := &partLog{}
 	cfg := sarama.NewConfig()
 	cfg.Producer.Return.Successes = s.RetSucc
 	cfg.Producer.Return.Errors = s.RetErr
 	cfg.ChannelBufferSize = 64
-	cfg.Producer.Partitioner = func(string) sarama.Partitioner { return scriptedPartitioner{&seen, &mu} }
+	cfg.Producer.Partitioner = plog.constructor()
 	mp := mocks.NewAsyncProducer(rep, cfg)
-	mp.SetDefaultPartitions(s.DefParts)
-	mp.SetPartitions(s.Overrides)
-	addExps(s.Exps, func(c mocks.MessageChecker, succ bool, err error) {
-		if succ {
-			mp.ExpectInputWithMessageCheckerFunctionAndSucceed(c)
-		} else {
-			mp.ExpectInputWithMessageCheckerFunctionAndFail(c, err)
-		}
-	})
+	setPartitions(mp.TopicConfig, s.DefParts, s.Overrides)
+	addExps(s.Exps, clog, expAPI{
+		msgChk: func(c mocks.MessageChecker, succ bool, err error) {
+			if succ {
+				mp.ExpectInputWithMessageCheckerFunctionAndSucceed(c)
+			} else {
+				mp.ExpectInputWithMessageCheckerFunctionAndFail(c, err)
+			}
+		},
+		valChk: func(c mocks.ValueChecker, succ bool, err error) {
+			if succ {
+				mp.ExpectInputWithCheckerFunctionAndSucceed(c)
+			} else {
+				mp.ExpectInputWithCheckerFunctionAndFail(c, err)
+			}
+		},
+		plain: func(succ bool, err error) {
+			if succ {
+				mp.ExpectInputAndSucceed()
+			} else {
+				mp.ExpectInputAndFail(err)
+			}
+		}})
+	pms := map[int64]*sarama.ProducerMessage{}
+	for _, m := range s.Msgs {
+		pms[m.ID] = clog.message(m)
+	}
 	var o obsAsync
 	var wg sync.WaitGroup
 	wg.Add(2)
@@ -73,9 +102,7 @@ func runAsync(s ascript) (obsAsync, []msg) {
 			o.Errs = append(o.Errs, [2]int64{e.Msg.Metadata.(msg).ID, errID(e.Err)})
 		}
 	}()
-	send := func(m msg) {
-		mp.Input() <- &sarama.ProducerMessage{Topic: topicName(m.Topic), Metadata: m, Partition: -7}
-	}
+	send := func(m msg) { mp.Input() <- pms[m.ID] }
 	var submitted []msg // the order the harness knows about (exact when steered / single sender)
 	if s.Senders <= 1 {
 		for _, m := range s.Msgs {
@@ -132,7 +159,8 @@ func runAsync(s ascript) (obsAsync, []msg) {
 	for _, l := range rep.logs {
 		o.Reports = append(o.Reports, classify(l))
 	}
-	o.NP = seen
+	o.NP, o.Ctors = plog.Calls, plog.Ctors
+	seen := plog.Calls
 	// arrival order
 	var arrival []msg
 	if submitted != nil {
@@ -155,7 +183,9 @@ func runAsync(s ascript) (obsAsync, []msg) {
 	}
 	for _, m := range arrival {
 		o.Arrival = append(o.Arrival, m.ID)
+		o.Final = append(o.Final, [2]int64{int64(pms[m.ID].Partition), pms[m.ID].Offset})
 	}
+	o.Checks = clog.Calls
 	return o, arrival
 }
 
@@ -184,6 +214,10 @@ func genAsync(r *rand.Rand) ascript {
 		r.Shuffle(len(s.Order), func(i, j int) { s.Order[i], s.Order[j] = s.Order[j], s.Order[i] })
 		if !s.Steer {
 			s.Order = nil
+			// the arrival order is read off the partitioner log: every message must find an expectation
+			for len(s.Exps) < len(s.Msgs) {
+				s.Exps = append(s.Exps, genExps(r, 1)...)
+			}
 		}
 	}
 	return s
@@ -192,7 +226,13 @@ func genAsync(r *rand.Rand) ascript {
 func genExps(r *rand.Rand, n int) []exp {
 	var es []exp
 	for i := 0; i < n; i++ {
-		es = append(es, exp{Succ: r.Intn(3) != 0, Err: int64(100 + r.Intn(5)), Chk: r.Intn(3), CErr: int64(200 + r.Intn(5))})
+		e := exp{Succ: r.Intn(3) != 0, Err: int64(100 + r.Intn(5)), Chk: r.Intn(3), CErr: int64(200 + r.Intn(5))}
+		if e.Chk == 0 {
+			e.Via = 2 * r.Intn(2)
+		} else {
+			e.Via = r.Intn(2)
+		}
+		es = append(es, e)
 	}
 	return es
 }
@@ -202,6 +242,16 @@ func genMsg(r *rand.Rand, id int64) msg {
 
 // monitor: the property stated directly on the observation (independent of the Coq model)
 func monitorAsync(s ascript, o obsAsync, arrival []msg) *cf.Monitor {
+	if o.Hang {
+		return &cf.Monitor{Signature: "async:hang", What: "the mock did not finish the script within 5 s"}
+	}
+	topicOf := map[int64]int{}
+	for _, m := range s.Msgs {
+		topicOf[m.ID] = m.Topic
+	}
+	if m := monitorPartitioner("async", &partLog{Ctors: o.Ctors, Calls: o.NP}, topicOf, s.DefParts, s.Overrides); m != nil {
+		return m
+	}
 	count := map[int64]int{}
 	for _, x := range o.Succ {
 		count[x[0]]++
@@ -242,13 +292,24 @@ func monitorAsync(s ascript, o obsAsync, arrival []msg) *cf.Monitor {
 	var wantSucc [][3]int64
 	var wantErr [][2]int64
 	var wantRep []string
+	var wantChk, wantFinal [][2]int64
 	off := int64(0)
 	for i, m := range arrival {
 		if i >= len(s.Exps) {
 			wantRep = append(wantRep, "RepNoExpectation")
+			wantFinal = append(wantFinal, [2]int64{-7, -9})
 			continue
 		}
 		e, rp := scriptedOutcome(s.Exps[i], m)
+		wantChk = append(wantChk, wantCheck(s.Exps[i], m)...)
+		fin := [2]int64{-7, -9}
+		if m.POk {
+			fin[0] = m.P
+		}
+		if e == 0 && s.RetSucc {
+			fin[1] = off + 1
+		}
+		wantFinal = append(wantFinal, fin)
 		if rp != "" {
 			wantRep = append(wantRep, rp)
 		}
@@ -267,6 +328,12 @@ func monitorAsync(s ascript, o obsAsync, arrival []msg) *cf.Monitor {
 	}
 	if fmt.Sprint(wantSucc) != fmt.Sprint(o.Succ) || fmt.Sprint(wantErr) != fmt.Sprint(o.Errs) {
 		return &cf.Monitor{Signature: "async:wrong-outcome", What: fmt.Sprintf("want successes %v errors %v, got %v %v", wantSucc, wantErr, o.Succ, o.Errs)}
+	}
+	if fmt.Sprint(wantChk) != fmt.Sprint(o.Checks) {
+		return &cf.Monitor{Signature: "async:checker-calls", What: fmt.Sprintf("checkers were called with (id, Partition) %v, want %v", o.Checks, wantChk)}
+	}
+	if fmt.Sprint(wantFinal) != fmt.Sprint(o.Final) {
+		return &cf.Monitor{Signature: "async:message-fields", What: fmt.Sprintf("(Partition, Offset) of the messages after Close %v, want %v", o.Final, wantFinal)}
 	}
 	if !strsEq(wantRep, o.Reports) {
 		return &cf.Monitor{Signature: "async:reports", What: fmt.Sprintf("want reporter calls %v, got %v", wantRep, o.Reports)}
@@ -289,18 +356,15 @@ func asyncCorpus() []ascript {
 
 func asyncCase(s ascript) (string, cf.Sidecar) {
 	o, arrival := runAsync(s)
-	var su, er, np []string
+	var su, er []string
 	for _, x := range o.Succ {
 		su = append(su, fmt.Sprintf("(%s, %s, %s)", cf.Z(x[0]), cf.Z(x[1]), cf.Z(x[2])))
 	}
 	for _, x := range o.Errs {
 		er = append(er, fmt.Sprintf("(%s, %s)", cf.Z(x[0]), cf.Z(x[1])))
 	}
-	for _, x := range o.NP {
-		np = append(np, fmt.Sprintf("(%s, %s)", cf.Z(x[0]), cf.Z(x[1])))
-	}
-	term := fmt.Sprintf("{| ac_cfg := {| ret_succ := %s; ret_err := %s |}; ac_def := %d; ac_over := %s; ac_exps := %s; ac_msgs := %s; ac_succ := %s; ac_errs := %s; ac_reports := %s; ac_np := %s |}",
-		cf.Bool(s.RetSucc), cf.Bool(s.RetErr), s.DefParts, coqOverrides(s.Overrides), coqExps(s.Exps), coqMsgs(arrival), cf.List(su), cf.List(er), cf.List(o.Reports), cf.List(np))
+	term := fmt.Sprintf("{| ac_cfg := {| ret_succ := %s; ret_err := %s |}; ac_def := %d; ac_over := %s; ac_exps := %s; ac_msgs := %s; ac_succ := %s; ac_errs := %s; ac_reports := %s; ac_np := %s; ac_ctor := %s; ac_checks := %s; ac_final := %s |}",
+		cf.Bool(s.RetSucc), cf.Bool(s.RetErr), s.DefParts, coqOverrides(s.Overrides), coqExps(s.Exps), coqMsgs(arrival), cf.List(su), cf.List(er), cf.List(o.Reports), coqZ3s(o.NP), cf.ZList(o.Ctors), coqZ2s(o.Checks), coqZ2s(o.Final))
 	kind := "async"
 	if s.Senders == 2 {
 		kind = "async-2senders"
